@@ -7,6 +7,7 @@ pub mod c04;
 pub mod c05;
 pub mod c06;
 pub mod c08;
+pub mod c09;
 pub mod c10;
 pub mod c11;
 pub mod c12;
@@ -18,7 +19,7 @@ pub mod c19;
 
 use crate::engine::Cfg;
 
-pub const SCENARIOS: &[&str] = &["c01", "c02a", "c02b", "c03", "c04a", "c04b", "c04c", "c05", "c06mpsc", "c06spsc", "c06mpmc", "c08", "c10s", "c10f", "c11c", "c11b", "c11w", "c12", "c13", "c14s", "c14sel", "c15", "c16q", "c16sel", "c19v1", "c19plain"];
+pub const SCENARIOS: &[&str] = &["c01", "c02a", "c02b", "c03", "c04a", "c04b", "c04c", "c05", "c06mpsc", "c06spsc", "c06mpmc", "c08", "c09", "c10s", "c10f", "c11c", "c11b", "c11w", "c12", "c13", "c14s", "c14sel", "c15", "c16q", "c16sel", "c19v1", "c19plain"];
 
 pub fn run(name: &str, seed: u64, ov: impl FnMut(&mut Cfg)) -> ! {
     match name {
@@ -34,6 +35,7 @@ pub fn run(name: &str, seed: u64, ov: impl FnMut(&mut Cfg)) -> ! {
         "c06spsc" => c06::run(seed, Some(c06::Flavor::Spsc), ov),
         "c06mpmc" => c06::run(seed, Some(c06::Flavor::Mpmc), ov),
         "c08" => c08::run(seed, ov),
+        "c09" => c09::run(seed, ov),
         "c10s" => c10::run_sem(seed, ov),
         "c10f" => c10::run_flag(seed, ov),
         "c11c" => c11::run_condvar(seed, ov),
